@@ -516,6 +516,9 @@ class JunctionCompartment(Compartment):
         outflow_fractions = [link.parameter.vals[ti] for link in self.outlinks]
         total_outflow = sum(outflow_fractions)
 
+        if total_outflow == 0 and not np.any(net_inflow):
+            total_outflow = 1  # Nothing flows in so nothing flows out whatever the proportions are - avoids 0*0/0 = NaN, which would then empty the downstream compartments
+
         # Finally, assign the inflow to the outflow proportionately accounting for the total outflow downscaling
         for frac, link in zip(outflow_fractions, self.outlinks):
             if self.duration_group:
